@@ -803,14 +803,19 @@ func runReplay(repo, verif string, rf *replayFile) (bool, string) {
 		if !strings.HasPrefix(line, "VREPLAY ") {
 			continue
 		}
-		if strings.Contains(line, "assumeFail=true") {
-			return false, line
-		}
 		switch rf.Kind {
 		case "panic":
+			if strings.Contains(line, "assumeFail=true") {
+				return false, line
+			}
 			return !strings.HasSuffix(strings.TrimSpace(line), "panic=<nil>"), line
 		default:
-			return strings.Contains(line, strconv.Quote(rf.Label)), line
+			// an assertion that already failed stays failed even if a later assumption of the harness (about
+			// inputs the formula did not mention) is not met by the model's default values
+			if strings.Contains(line, strconv.Quote(rf.Label)) {
+				return true, line
+			}
+			return false, line
 		}
 	}
 	return false, out
